@@ -134,8 +134,21 @@ func feed(t *testing.T, run *ev.Run, h *history, rc repCfg, stream uint64, concu
 				run.Obs("flushes_between_header_and_block", 1)
 			}
 		}
-		if err := rep.AddRaw(p.Raw[i]); err != nil {
-			return &outcome{sig: "block-rejected", detail: fmt.Sprintf("height %d: %v", height, err), height: height, log: log}
+		var aerr error
+		func() {
+			defer func() {
+				if x := recover(); x != nil {
+					aerr = fmt.Errorf("panic: %v", x)
+				}
+			}()
+			aerr = rep.AddRaw(p.Raw[i])
+		}()
+		if aerr != nil {
+			sig := "block-rejected"
+			if strings.HasPrefix(aerr.Error(), "panic") {
+				sig = "panic-while-adding-block"
+			}
+			return &outcome{sig: sig, detail: fmt.Sprintf("height %d: %v", height, aerr), height: height, log: log}
 		}
 		o := vchain.Observe(rep.BC, opts)
 		run.Obs("observations_compared", 1)
